@@ -46,7 +46,7 @@ def entry(name, p):
         typ=p.get("typ"),
         default=normdefault(p["default"]) if "default" in p else ABSENT,
         doc=normdoc(p.get("doc")),
-        keys=sorted(p.keys()),
+        keys=sorted(map(str, p.keys())),
     )
 
 
